@@ -180,13 +180,7 @@ pub fn enqueue_str_at<const LEN: usize, const POS: usize>(nd: &mut Nd) {
     let bytes = [nd.ascii(), 0, 0];
     let len = 1;
     let mut conn = wc(LEN, POS);
-    let s = match core::str::from_utf8(&bytes[..len]) {
-        Ok(s) => s,
-        Err(_) => {
-            nd.assume(false);
-            return;
-        }
-    };
+    let s = crate::nd::str_of(&bytes[..len]);
     let reply: Reply<&str> = Reply::new(Some(s));
     let res = conn.verif_enqueue(&reply);
     let doc = expect_reply_str(&bytes, len);
